@@ -809,7 +809,10 @@ class ShapeLifter(Lifter):
         ev = lambda e: self.ev(e, env, fn, depth, owner)   # noqa: E731
         if f in ('np.asarray', 'np.array', 'np.copy', 'np.sqrt', 'np.log',
                  'np.exp', 'np.abs', 'copy.copy', 'copy.deepcopy', 'list',
-                 'np.ma.filled', 'np.isnan', 'np.isinf', 'np.isfinite') \
+                 'np.ma.filled', 'np.isnan', 'np.isinf', 'np.isfinite',
+                 '_norm_pdf', '_norm_cdf', 'norm.pdf', 'norm.cdf',
+                 'np.square', 'np.log1p', 'np.expm1', 'erf', 'math.erf',
+                 'scipy.special.erf') \
                 and n.args:
             v = ev(n.args[0])
             if isinstance(v, Arr):
@@ -886,6 +889,16 @@ class ShapeLifter(Lifter):
                     else:
                         return TOP
                 return self.concat(parts) if parts else TOP
+            return TOP
+        if f in ('sorted', 'reversed', 'np.sort', 'np.unique', 'np.flip',
+                 'np.random.permutation') and n.args:
+            # a re-ordered (and, for unique, possibly shortened) sequence:
+            # its positions are not the positions of its argument
+            v = ev(n.args[0])
+            if isinstance(v, Arr) and v.ndim == 1:
+                lab = '%s(%s)' % (f, nest_str(v.axes[0].nest))
+                return Arr([Ax(v.axes[0].size, ((lab, v.axes[0].size),))],
+                           is_list=v.is_list or f in ('sorted',))
             return TOP
         if f in ('np.stack', 'numpy.stack') and n.args and isinstance(
                 n.args[0], (ast.Tuple, ast.List)):
